@@ -23,7 +23,7 @@ func init() {
 		Doc: "NewSortValue follows the normalisation ladder in every abstract world — the ladder of SerializeKey (R-KEY-3) and CompareCombinedly (R-CMP-3): NULL, then value.ToIntegerStrictly, value.ToFloat, value.ToDatetime (with flags.DatetimeFormat and flags.GetTimeLocation()), value.ToBoolean, then *value.String, else NULL. " +
 			"The function is executed by abstract interpretation with the null-ness of the value, the success of each conversion and the *value.String test as world atoms (value.IsNull and type assertions on a conversion result answer by that atom; unexported functions and methods of lib/query are inlined, every other condition — a test on the bytes of the text, a flag — is an opaque atom answered both ways). " +
 			"Decided in every world: a conversion is left untried only when the value is NULL or an earlier rung succeeded (so no test on the content may route a value past a rung); the SortValue returned has the Type of the first successful rung; its fields are that rung's data: " +
-			"Integer/Float/String for an integer (raw integer, its float64, upper-cased trimmed text of value.ToString), Float/String for a float, Datetime = the raw time.Time of the datetime (the instant itself, not a number derived from it: R-SRT-8), Integer 1/0 for a boolean by its raw value, String = upper-cased trimmed raw text for a string, nothing else set; " +
+			"Integer/Float/String for an integer (raw integer, its float64, upper-cased trimmed text of value.ToString), Float/String for a float, Datetime = the raw time.Time of the datetime (the instant itself, not a number derived from it: R-SRT-8), Integer 1/0 for a boolean by its raw value, String = upper-cased trimmed raw text for a string, nothing else set — except that a datetime or a boolean that was read from a *value.String may keep String = the upper-cased trimmed raw text of that string (the text it is ordered by among other words: R-SRT-10 decides whether the comparator needs it); " +
 			"SerializeIdenticalKey fills SerializedKey exactly when flags.StrictEqual",
 		Controls: []string{"CtlSortValueTextFastPath"},
 		Run:      ruleSrt6})
@@ -281,6 +281,9 @@ func srt6Check(c *Ctx, fn *ssa.Function, negative bool) {
 				}
 			}
 			switch {
+			case exp == "" && f == "String" && (want == "DatetimeType" || want == "BooleanType") && gotF == srt6RawText && w.Get("b:is:"+vt("String")+":val") == 1:
+				// a datetime or a boolean read from a string may keep the text of that string (upper-cased,
+				// trimmed): it is what the value is ordered by among the other words of its column (R-SRT-10)
 			case exp == "":
 				if gotF != "unset" {
 					report(fmt.Sprintf("%s: %s also sets %s = %s, which is not data of that rung", world, want, f, gotF))
